@@ -20,7 +20,7 @@ from vf.engine.runner import Broken, Result
 ID = "C05"
 LEVEL = "model_checking"
 RULE = (
-    "scenarios = caller sets (2 or 3 callers x 1-2 requests, optional tester-present worker, optional reconnect caller) "
+    "scenarios = caller sets (2 or 3 callers x 1-2 requests, plus four- and five-caller sets, optional tester-present worker, optional reconnect caller) "
     "x start order permutations x per-caller reply scripts {R immediate, PR pending-then-reply, - silence, C connection error, "
     "PPR} x max_retry {0,1}; for each scenario every schedule with <= bound deviations (reply delivered while tasks runnable, "
     "timer before a deliverable reply, timer and reply in the same iteration, cancel of one caller at any iteration boundary). "
@@ -403,6 +403,15 @@ def items(tier: str, seed: int) -> list[Any]:
         for order in orders:
             for worker in (False, True):
                 out.append(((callers, order, worker, False, 0, True), bound, cap))
+    # four and five callers (bound 1; thorough: more script mixes and bound 2 on the four-caller case)
+    many = [("R", "PR", "-", "R"), ("PR", "R", "R", "C")] if quick else [("R", "PR", "-", "R"), ("PR", "R", "R", "C"), ("-", "-", "R", "PR"), ("R", "R", "R", "R")]
+    for sc in many:
+        callers4 = tuple((n, (0x1001 + 0x1001 * i, sc[i])) for i, n in enumerate("ABCD"))
+        out.append(((callers4, (0, 1, 2, 3), True, False, 0, True), 1 if quick else 2, cap))
+        out.append(((callers4, (3, 1, 0, 2), False, False, 1, True), 1, cap))
+    five = tuple((n, (0x1001 + 0x1001 * i, ["R", "PR", "-", "R", "PR"][i])) for i, n in enumerate("ABCDE"))
+    out.append(((five, (0, 1, 2, 3, 4), True, False, 0, True), 1, cap))
+    out.append(((five, (4, 2, 0, 3, 1), False, True, 0, True), 1, cap))
     if not quick:
         # deeper deviation bound on the small scenarios
         for sa, sb in itertools.product(["R", "PR", "-", "PPR"], repeat=2):
